@@ -1112,3 +1112,26 @@ Proof.
   destruct (drain (S (measure s2)) max missing ds s2 acc2) as [s3 acc3] eqn:D3.
   apply (drain_sched max missing ds _ _ _ _ _ _ E2 D3).
 Qed.
+
+(* ---------- client mode: two server kinds, one plan, one semaphore ---------- *)
+Lemma both_server_kinds_in_plan_proof lib sel order c g :
+  In g order ->
+  batch_cases lib sel c (mkPeer true false) g <> [] ->
+  batch_cases lib sel c (mkPeer false true) g <> [] ->
+  In (mkBatch 0 c.(p_ref) true g (batch_cases lib sel c (mkPeer true false) g))
+     (plan lib sel order [c] (peers_of true)) /\
+  In (mkBatch 0 c.(p_ref) false g (batch_cases lib sel c (mkPeer false true) g))
+     (plan lib sel order [c] (peers_of true)).
+Proof.
+  intros Hg H1 H2. unfold plan. cbn [plan_from]. rewrite app_nil_r.
+  unfold plan_phase, peers_of. cbn [flat_map]. rewrite app_nil_r. split.
+  - apply in_or_app; left. apply in_flat_map. exists g. split; [exact Hg|].
+    destruct (batch_cases lib sel c (mkPeer true false) g); [congruence|]. cbn. left; reflexivity.
+  - apply in_or_app; right. apply in_flat_map. exists g. split; [exact Hg|].
+    destruct (batch_cases lib sel c (mkPeer false true) g); [congruence|]. cbn. left; reflexivity.
+Qed.
+
+Lemma bounded_across_server_kinds_proof max lib sel order clients acts :
+  always_bounded max (run_sched max (plan lib sel order clients (peers_of true)) acts).(trace) /\
+  max_alive (run_sched max (plan lib sel order clients (peers_of true)) acts).(trace) <= max.
+Proof. split; [apply bounded_proof|apply max_alive_proof]. Qed.
